@@ -14,6 +14,7 @@ import (
 
 	"github.com/thushan/olla/internal/adapter/proxy/common"
 	"github.com/thushan/olla/internal/adapter/proxy/core"
+	"github.com/thushan/olla/internal/adapter/proxy/olla"
 	"github.com/thushan/olla/internal/zz_verif/scen"
 	"github.com/thushan/olla/internal/zz_verif/stack"
 	"github.com/thushan/olla/internal/zz_verif/vlib"
@@ -66,5 +67,13 @@ func main() {
 	skipErr := error(core.ErrCircuitOpen)
 	f.Def("circuitOpenIsConnectionError", "Bool", vlib.LeanBool(core.IsConnectionError(skipErr)), "IsConnectionError(ErrCircuitOpen) — must be false: a skip is not a connection failure of the endpoint")
 	f.Def("noHealthyIsConnectionError", "Bool", vlib.LeanBool(core.IsConnectionError(common.ErrNoHealthyEndpoints)), "")
+	// olla engine breaker threshold, measured on the breaker the engine installs for a new endpoint
+	cb := olla.VerifNewEngineBreaker("gen")
+	th := 0
+	for th < 1000 && !cb.IsOpen() {
+		cb.RecordFailure()
+		th++
+	}
+	f.Def("engineBreakerThreshold", "Nat", vlib.LeanNat(uint64(th)), "consecutive RecordFailure calls after which the olla engine's per-endpoint breaker reports IsOpen")
 	f.Write(ns)
 }
